@@ -876,8 +876,47 @@ func runSetTargetCapsLength(rr *RuleRun) {
 					}
 				}
 			}
+			// … or an enclosing 'if l == 0 || l == 1' / 'if l <= 1' / 'if l < 2'
+			if !small {
+				var child ast.Node = call
+				for p := c.Parent(call); p != nil && p != ast.Node(fd.Body) && !small; child, p = p, c.Parent(p) {
+					is, ok := p.(*ast.IfStmt)
+					if !ok || child != ast.Node(is.Body) {
+						continue
+					}
+					var smallCond func(e ast.Expr) bool
+					smallCond = func(e ast.Expr) bool {
+						be, ok := ast.Unparen(e).(*ast.BinaryExpr)
+						if !ok {
+							return false
+						}
+						if be.Op == token.LOR {
+							return smallCond(be.X) && smallCond(be.Y)
+						}
+						if objOf(info, be.X) != info.Uses[id] {
+							return false
+						}
+						k, isConst := constInt(info, be.Y)
+						if !isConst {
+							return false
+						}
+						switch be.Op {
+						case token.EQL:
+							return k <= 1
+						case token.LEQ:
+							return k <= 1
+						case token.LSS:
+							return k <= 2
+						}
+						return false
+					}
+					if smallCond(is.Cond) {
+						small = true
+					}
+				}
+			}
 			if small {
-				rr.OK(key, call.Pos(), "the bound is the tag of a switch case that admits only 0 and 1")
+				rr.OK(key, call.Pos(), "the bound is established to be 0 or 1 by the enclosing case / condition")
 				return true
 			}
 		}
@@ -2785,17 +2824,27 @@ func runConstructorConsistencyAgreement(rr *RuleRun) {
 				return true
 			}
 			for _, st := range rs.Body.List {
-				is, ok := st.(*ast.IfStmt)
-				if !ok {
-					continue
+				var c1, c2 ast.Expr
+				switch x := st.(type) {
+				case *ast.IfStmt:
+					if ei, ok := x.Else.(*ast.IfStmt); ok {
+						c1, c2 = x.Cond, ei.Cond
+					}
+				case *ast.SwitchStmt:
+					// the same chain written as a tagless switch
+					if x.Tag == nil && len(x.Body.List) >= 2 {
+						a, b := x.Body.List[0].(*ast.CaseClause), x.Body.List[1].(*ast.CaseClause)
+						if len(a.List) == 1 && len(b.List) == 1 {
+							c1, c2 = a.List[0], b.List[0]
+						}
+					}
 				}
-				ei, ok := is.Else.(*ast.IfStmt)
-				if !ok {
+				if c1 == nil {
 					continue
 				}
 				cc := &canonCtx{info: info, subst: map[types.Object]string{}, locals: map[types.Object]string{}}
-				guards[name] = "if " + cc.expr(is.Cond) + " adopt, else if " + cc.expr(ei.Cond) + " reject"
-				pos[name] = is.Pos()
+				guards[name] = "if " + cc.expr(c1) + " adopt, else if " + cc.expr(c2) + " reject"
+				pos[name] = st.Pos()
 				break
 			}
 			return true
@@ -5281,5 +5330,108 @@ func runJSONEncodePrefixConstant(rr *RuleRun) {
 	}
 	if n == 0 {
 		rr.Info(pkg+".JSONEncodeFunc/prefix", token.NoPos, "JSONEncodeFunc promises no string prefix")
+	}
+}
+
+// ---------------------------------------------------------------------------
+// C02.product-precision
+
+func init() {
+	register(&Rule{
+		ID: "C02.product-precision", Prop: "C02", Floor: 1, Controls: 0,
+		Doc: "Value.Multiply computes the product into a big.Float whose working precision is a constant (the library's 512-bit ceiling) or is derived from the precision of BOTH operands: an exact product needs the sum of the two mantissa widths, so a working precision taken from the receiver alone rounds the product of a narrow receiver and a wide operand (and makes a*b differ from b*a)",
+		Run: runProductPrecision,
+	})
+}
+
+func runProductPrecision(rr *RuleRun) {
+	c := rr.Ctx
+	info := c.Info("cty")
+	fd := rr.MustDecl("cty", "Value.Multiply")
+	if fd == nil {
+		return
+	}
+	recv := info.Defs[fd.Recv.List[0].Names[0]]
+	other := info.Defs[paramIdent(fd, 0)]
+	n := 0
+	inspectNoLit(fd.Body, func(nd ast.Node) bool {
+		call, ok := nd.(*ast.CallExpr)
+		if !ok || !isCall(info, call, "math/big.Float.Mul") {
+			return true
+		}
+		n++
+		key := "cty.Value.Multiply/" + trunc(exprStr(call), 40)
+		// the receiver of Mul and where its precision was set
+		ro := rootObj(info, call.Fun.(*ast.SelectorExpr).X)
+		var precArg ast.Expr
+		var precPos token.Pos
+		inspectNoLit(fd.Body, func(m ast.Node) bool {
+			pc, ok := m.(*ast.CallExpr)
+			if !ok || !isCall(info, pc, "math/big.Float.SetPrec") || pc.Pos() > call.Pos() {
+				return true
+			}
+			// new(big.Float).SetPrec(E) assigned to ro, or ro.SetPrec(E)
+			if rootObj(info, pc) == ro {
+				precArg, precPos = pc.Args[0], pc.Pos()
+			}
+			if as, ok := c.Parent(pc).(*ast.AssignStmt); ok && len(as.Lhs) == 1 && objOf(info, as.Lhs[0]) == ro {
+				precArg, precPos = pc.Args[0], pc.Pos()
+			}
+			return true
+		})
+		if precArg == nil {
+			rr.Violation(key, call.Pos(), "the product is computed into a big.Float whose precision was not set before the multiplication: a zero-precision receiver takes the larger operand precision and rounds the product")
+			return true
+		}
+		if _, isConst := constInt(info, precArg); isConst {
+			rr.OK(key, call.Pos(), "constant working precision "+exprStr(precArg))
+			return true
+		}
+		// dependence of the precision expression on the operands, through assignments that precede it
+		dep := map[types.Object][2]bool{} // var → depends on (recv, other)
+		scan := func(e ast.Expr) (r, o bool) {
+			ast.Inspect(e, func(m ast.Node) bool {
+				if id, ok := m.(*ast.Ident); ok {
+					ob := info.Uses[id]
+					if ob == recv {
+						r = true
+					}
+					if ob == other {
+						o = true
+					}
+					if d, ok := dep[ob]; ok {
+						r, o = r || d[0], o || d[1]
+					}
+				}
+				return true
+			})
+			return
+		}
+		// one pass in source order: what a variable depends on is what had been assigned to it by then (the
+		// function is straight-line code with small ifs; later assignments must not count)
+		inspectNoLit(fd.Body, func(m ast.Node) bool {
+			as, ok := m.(*ast.AssignStmt)
+			if !ok || as.Pos() > precPos || len(as.Lhs) != len(as.Rhs) {
+				return true
+			}
+			for i, l := range as.Lhs {
+				if ob := objOf(info, l); ob != nil && ob != recv && ob != other {
+					r, o := scan(as.Rhs[i])
+					d := dep[ob]
+					dep[ob] = [2]bool{d[0] || r, d[1] || o}
+				}
+			}
+			return true
+		})
+		r, o := scan(precArg)
+		if r && o {
+			rr.OK(key, call.Pos(), "the working precision depends on both operands")
+		} else {
+			rr.Violation(key, call.Pos(), fmt.Sprintf("the working precision of the product (%s) is derived from only one of the two operands: the exact product needs the sum of both mantissa widths, so a narrow operand on that side makes the product of a wide number round — and a*b differ from b*a", exprStr(precArg)))
+		}
+		return true
+	})
+	if n == 0 {
+		rr.Broken("stale anchor: Value.Multiply does not call big.Float.Mul")
 	}
 }
